@@ -47,7 +47,7 @@ def expected_annotation(piece):
 def generate(rng, tier):
     cases = []
     n = 0
-    nschema = 60 if tier == "quick" else 600
+    nschema = 60 if tier == "quick" else 350
     per = 16 if tier == "quick" else 40
     schemas = hand_schemas() + [gen.rand_schema(rng, allow=("int", "float", "bool", "str", "sec", "func"), p_flags=0.35) for _ in range(nschema)]
     for opts in schemas:
